@@ -72,7 +72,7 @@ def lib_token_ends():
 def run(tier, seed):
     ctx = core.Ctx(PID, tier, seed, LEVEL)
     rng = ctx.rng
-    per_cell = 25 if tier == "quick" else core.share(400)
+    per_cell = 25 if tier == "quick" else core.share(1600)
     ctx.rule = ("fault programs: %d fault kinds x 7 calling contexts (top-level macro use, tail call written inside the failing form, direct, tail at trampoline iteration 1/2/k, apply, inside map/for-each/fold, inside a derived form in a procedure), "
                 "%d per cell, rendered with random multi-line layout, indentation, comments and 0-30 preceding forms; plus syntax-error inputs with a known offending token. "
                 "distinct_nontrivial = distinct (fault, context, line of the failing form, located at token / in form) observations that satisfied the oracle" % (len(FAULTS), per_cell))
